@@ -78,6 +78,12 @@ def gen_case(seed, tier):
         names = names + [f"d{i:02d}" for i in range(rng.choice([10, 16, 24]))]
         TYPES = ["NS", "NS", "NS"] + list(TYPES)
     base = Z.base_load(rng, rng.choice([20, 40]) if wide else rng.choice([2, 5, 10]), names, TYPES)
+    if nested_ok and rdclass == "IN" and rng.random() < 0.25:
+        # template: a cut with an occluded NS owner and names beneath that owner, and a second inner cut
+        for n, t, rd in (("sub", "NS", "ns1"), ("ns.sub", "NS", "ns2.example."), ("deep.ns.sub", "A", "10.0.0.3"), ("sub2.sub", "NS", "ns1"), ("a.sub2.sub", "A", "10.0.0.4")):
+            if n not in names:
+                names.append(n)
+            base.append({"o": "add", "n": n, "nf": "rel", "f": "rdataset", "t": t, "ttl": 300, "rd": [rd]})
     head, tail = base[:2], base[2:]
     rng.shuffle(tail)
     if rng.random() < 0.3:
@@ -87,6 +93,7 @@ def gen_case(seed, tier):
         base = allops
     else:
         base = head + tail
+    inner = [n for n in names if any(m not in ("@", n) and n.endswith("." + m) for m in names)]
     steps = []
     for _ in range(rng.choice([1, 2, 4, 8] if big else [1, 2, 4, 6])):
         r = rng.random()
@@ -103,6 +110,10 @@ def gen_case(seed, tier):
                 if op["o"] == "delete" and op["n"] == "@" and op["f"] == "name":
                     op["n"] = rng.choice(names)
                 ops.append(op)
+            if inner and rng.random() < 0.2:
+                # the whole node of a name that lies beneath another name of the zone goes away (an occluded
+                # NS owner, glue, a name below an inner cut): what is exposed or hidden is decided by content
+                ops.insert(rng.randrange(len(ops) + 1), {"o": "delete", "n": rng.choice(inner), "nf": rng.choice(["rel", "abs"]), "f": "name", "exact": False})
             steps.append(
                 {
                     "s": "write",
